@@ -42,9 +42,17 @@ func regServices() []ServiceSpec {
 		r.Body = "*"
 		return r
 	}
+	// (methods with additional bindings: every binding of a method is a route of its own in the trie, and all of them
+	// come and go with the method's backends)
+	more := func(r *annotations.HttpRule, paths ...string) *annotations.HttpRule {
+		for _, p := range paths {
+			r.AdditionalBindings = append(r.AdditionalBindings, body(p))
+		}
+		return r
+	}
 	return []ServiceSpec{
-		{Pkg: "vg", Name: "A", Methods: []MethodSpec{{Name: "m1", Rule: body("/g/a/m1/{s}")}, {Name: "m2", Rule: body("/g/a/m2")}}},
-		{Pkg: "vg", Name: "B", Methods: []MethodSpec{{Name: "m1", Rule: body("/g/b/{s}:go")}, {Name: "m2", Rule: body("/g/a/m1/{s}/b")}}},
+		{Pkg: "vg", Name: "A", Methods: []MethodSpec{{Name: "m1", Rule: more(body("/g/a/m1/{s}"), "/g/a/alt/{s}")}, {Name: "m2", Rule: more(body("/g/a/m2"), "/g/a2/m2", "/g/a3/{s}/m2")}}},
+		{Pkg: "vg", Name: "B", Methods: []MethodSpec{{Name: "m1", Rule: more(body("/g/b/{s}:go"), "/g/b2/{s}")}, {Name: "m2", Rule: body("/g/a/m1/{s}/b")}}},
 	}
 }
 
@@ -147,9 +155,13 @@ type ProbeEv struct {
 	N     int        `json:"n"`
 }
 
-var regMethods = []struct{ name, full, path string }{
-	{"A.m1", "/vg.A/m1", "/g/a/m1/x"}, {"A.m2", "/vg.A/m2", "/g/a/m2"}, {"B.m1", "/vg.B/m1", "/g/b/x:go"},
-	{"B.m2", "/vg.B/m2", "/g/a/m1/x/b"},
+var regMethods = []struct {
+	name, full, path string
+	extras           []string // request paths of the additional bindings
+}{
+	{"A.m1", "/vg.A/m1", "/g/a/m1/x", []string{"/g/a/alt/x"}}, {"A.m2", "/vg.A/m2", "/g/a/m2", []string{"/g/a2/m2", "/g/a3/x/m2"}},
+	{"B.m1", "/vg.B/m1", "/g/b/x:go", []string{"/g/b2/x"}},
+	{"B.m2", "/vg.B/m2", "/g/a/m1/x/b", nil},
 }
 
 // what each backend of the scenario serves (must agree with Registry_Hist.tla)
@@ -232,11 +244,20 @@ func probeOnceQ(mux *larking.Mux, proto_, full, path, rawQuery string) (out Prob
 func probeAll(mux *larking.Mux, caseID, tries int) []interface{} {
 	var evs []interface{}
 	for _, m := range regMethods {
-		for _, pr := range []string{"http", "implicit", "grpc"} {
+		protos := []string{"http", "implicit", "grpc"}
+		for k := range m.extras {
+			protos = append(protos, "extra"+strconv.Itoa(k))
+		}
+		for _, pr := range protos {
 			seen := map[ProbeOut]bool{}
 			pe := ProbeEv{Ev: "Probe", Case: caseID, M: m.name, Proto: pr, N: tries, Outs: []ProbeOut{}}
 			for i := 0; i < tries; i++ {
-				o := probeOnce(mux, pr, m.full, m.path)
+				path, via := m.path, pr
+				if strings.HasPrefix(pr, "extra") {
+					k, _ := strconv.Atoi(pr[5:])
+					path, via = m.extras[k], "http"
+				}
+				o := probeOnce(mux, via, m.full, path)
 				if !seen[o] {
 					seen[o] = true
 					pe.Outs = append(pe.Outs, o)
